@@ -314,6 +314,11 @@ class State:
         s.depth = self.depth
         s.trace = list(self.trace)
         s._memo = memo
+        # attributes that harnesses hang on a path (event records, remembered memories, pending exception): they belong to the path and go
+        # with every fork of it (lists are copied so that the forks do not share later appends)
+        for k, v in self.__dict__.items():
+            if k not in s.__dict__ or k in ("catch_stack",):
+                s.__dict__[k] = list(v) if isinstance(v, list) else (dict(v) if isinstance(v, dict) else v)
         return s
 
     def snapshot(self):
